@@ -118,15 +118,15 @@ def finish(ctx, explanation, decides, not_decided, exhaustive=False, extra=None)
     fp = os.path.join(VERIF, 'ofverif', 'floors.json')
     if os.path.exists(fp):
         fl = json.load(open(fp)).get(ctx.prop, {}).get(ctx.tier, {})
+    floor_problem = None
     for rule, need in fl.items():
         if rule not in ctx.rules:
-            raise AnalysisBroken(rule, 'rule produced no instance at all (frozen floor %d)' % need)
+            floor_problem = (rule, 'rule produced no instance at all (frozen floor %d)' % need)
     for rule, r in sorted(ctx.rules.items()):
         r['floor'] = max(r['floor'], fl.get(rule, 0))
         if r['instances'] < r['floor'] and not r['failed']:
-            raise AnalysisBroken(rule, 'matched %d instances, floor confirmed by reading is %d '
-                                 '(the code this rule is anchored in was restructured or the rule no '
-                                 'longer recognises it)' % (r['instances'], r['floor']))
+            floor_problem = (rule, 'matched %d instances, floor confirmed by reading is %d (the code this rule is anchored in was '
+                             'restructured or the rule no longer recognises it)' % (r['instances'], r['floor']))
     known = load_known()
     kidx = {}
     for k in known:
@@ -146,6 +146,9 @@ def finish(ctx, explanation, decides, not_decided, exhaustive=False, extra=None)
         seen.add(f.ident())
         print('KNOWN-FINDING: property=%s %s [%s in %s at %s]' % (f.prop, k.get('what', f.msg), f.rule,
                                                                   f.function, f.loc))
+    if floor_problem is not None and not new:
+        # nothing was found, but a rule saw (much) less code than it was frozen on: that is not a pass
+        raise AnalysisBroken(floor_problem[0], floor_problem[1])
     rdir = os.environ.get('OFVERIF_REPLAY_DIR') or os.path.join(VERIF, 'replay')
     n = 0
     for f in new:
